@@ -205,7 +205,7 @@ def _scan_loops(fn):
     for n in ast.walk(fn):
         if isinstance(n, ast.For):
             augs = [s for s in n.body if isinstance(s, ast.AugAssign) and isinstance(s.op, ast.Add) and isinstance(s.target, ast.Name)]
-            if augs and any(isinstance(x, ast.Break) for x in ast.walk(n)):
+            if augs:  # a scan that lost its stopping rule is still a scan: the table reports the missing stop
                 out.append((n, augs[0].target.id))
     return out
 
